@@ -17,7 +17,7 @@ RULE = ('one case = one real `-T file --threads k` run over 2-3 scripted servers
         'plus gated 3-target runs with --threads 2 in both gate orders; thorough: all ordered triples, threads 1/2/3/32, every gate permutation, two hash seeds.  The in-process monitor records (thread, target, table pristine at entry) '
         'so the evidence lists the distinct "previous target on this thread -> this target" contexts actually produced.  Non-trivial: at least one target ran on a thread that had already served another target, or two targets ran concurrently; '
         'distinct = distinct (target list, threads, gate order, format)')
-REQUIRED = {'targets_listed_twice': 6, 'default_port_entries': 6, 'multi_runs': 40, 'blocks_compared': 80, 'thread_reuse_contexts': 30, 'json_runs': 8, 'policy_runs': 4, 'gated_runs': 4, 'master_digest_checks': 40}
+REQUIRED = {'runs_with_extra_options': 8, 'targets_listed_twice': 6, 'default_port_entries': 6, 'multi_runs': 40, 'blocks_compared': 80, 'thread_reuse_contexts': 30, 'json_runs': 8, 'policy_runs': 4, 'gated_runs': 4, 'master_digest_checks': 40}
 ASSUMPTIONS = ['a per-target block is compared after removing the "(gen) target:" line and surrounding blank lines; a JSON element after removing "target"',
                'the table-pristine observation is diagnostic only: the verdict is decided on output equality']
 MANIFEST = {
@@ -53,6 +53,10 @@ def cases(tier, seed):
     for i, names in enumerate(pm if tier == 'quick' else list(itertools.permutations(['clean', 'rsa1024', 'terrapin', 'gex2048-openssh'], 3))):
         for bare in range(3):
             cs.append({'kind': 'portmix', 'targets': list(names), 'bare': bare, 'threads': [1, 2][(i + bare) % 2], 'fmt': 'json' if (i + bare) % 3 == 0 else 'text'})
+    # the same schedules under options that change which code runs around a scan (-2: SSH-2 only; -4; batch; level filter)
+    for i, opts in enumerate([['-2'], ['-4'], ['-b'], ['-l', 'warn'], ['-2', '-b']]):
+        for (a, b) in ([('terrapin', 'clean'), ('rsa1024', 'clean')] if tier == 'quick' else list(itertools.permutations(['terrapin', 'clean', 'rsa1024', 'gex1024', 'gex2048-openssh'], 2))):
+            cs.append({'kind': 'seq', 'targets': [a, b], 'threads': 1, 'fmt': 'json' if i % 2 else 'text', 'opts': opts})
     # the same server listed twice (same line again, around another target)
     for i, (a, b) in enumerate([('clean', 'rsa1024'), ('terrapin', 'clean'), ('gex1024', 'openssh-new')] if tier == 'quick' else list(itertools.permutations(['clean', 'rsa1024', 'terrapin', 'gex1024'], 2))):
         for th in (1, 2):
@@ -103,7 +107,9 @@ def run_case(c):
     gated = c['kind'] == 'gated'
     targets = [multi.Target(n, multi.healthy(n), gated=gated) for n in names]
     viol, counters = [], {'multi_runs': 1}
-    extra = []
+    extra = list(c.get('opts', []))
+    if extra:
+        counters['runs_with_extra_options'] = 1
     d = None
     try:
         if c['kind'] == 'policy':
@@ -152,7 +158,7 @@ def run_case(c):
                 viol.append(_v('C07/master-table-modified', 'the master rating tables were modified by a scan'))
         # ----------------------------------------------------------- per-target comparison
         for t in targets:
-            if c['kind'] == 'policy':
+            if c['kind'] == 'policy' or c.get('opts'):
                 want_status, want = single(t.name, c['fmt'], tuple(extra))
             else:
                 want_status, want = single(t.name, c['fmt'])
